@@ -57,6 +57,11 @@ func (e *Engine) generate(completions Values) {
 func (e *Engine) setPrefix(completions Values) {
 	switch completions.PREFIX {
 	case "":
+		// At the very beginning of the line, there is nothing to complete yet.
+		if e.cursor.Pos() == 0 {
+			return
+		}
+
 		// Select the character just before the cursor.
 		cpos := e.cursor.Pos() - 1
 		if cpos < 0 {
